@@ -305,9 +305,9 @@ class C08(Prop):
         if api == "read_dedisp":
             return [("FilReader_read_dedisp_block", hin, {"p_nsamps": n, "p_start": s}, out, common_f + ["nsamples"])]
         if api == "collapse":
-            return [("Filterbank_collapse", hin, {"p_start": s, "p_tim_len": n}, out, common_f + ["nsamples", "dm"])]
+            return [("Filterbank_collapse", hin, {"p_start": s, "p_nsamps_read": n}, out, common_f + ["nsamples", "dm"])]
         if api == "read_chan":
-            return [("Filterbank_read_chan", hin, {"p_start": s, "p_tim_len": n}, out, common_f + ["nsamples", "dm"])]
+            return [("Filterbank_read_chan", hin, {"p_start": s, "p_nsamps_read": n}, out, common_f + ["nsamples", "dm"])]
         if api == "dedisperse":
             md = n - out["nsamples"]
             return [("Filterbank_dedisperse", hin, {"p_dm": case["dm"], "p_max_delay": md, "p_nsamps_read": n, "p_start": s},
